@@ -1135,6 +1135,12 @@ func cmdDeterminism(args []string) {
 			for _, r := range res {
 				h := sha256.New()
 				for _, l := range r.Trace {
+					if strings.Contains(l, "SYNC POINT final") {
+						break // what follows is the teardown of the controller (log lines of parallel shutdowns)
+					}
+					if strings.Contains(l, `"msg"="enqueue reconciliation due to leader acquired"`) || strings.Contains(l, `log services/acme/client`) {
+						continue // log lines of the goroutines a lease change starts in parallel
+					}
 					if strings.Contains(l, `"msg"="Starting EventSource"`) {
 						// controller-runtime starts its sources from parallel goroutines; only the order
 						// of these log lines depends on it (handlers are driven by SimKube, kind by kind)
